@@ -342,6 +342,21 @@ def rule_diagonal_solver(rep: Report, repo: Repo, complex_energies: bool = True)
                          "required Y (.) K(i,j) with K(i,j)[r,c] = 1/(E_i[r] - E_j[c]); note K(j,i) = -K(i,j)^T, so "
                          "-Dagger(solve(Dagger(Y), swapped)) = Y (.) conj(K(i,j)) is only right for real energies", loc(o.node))
             continue
+        outers = [c_ for c_ in ast.walk(o.value) if isinstance(c_, ast.Call) and call_name(c_) in ("np.subtract.outer", "numpy.subtract.outer")
+                  and len(c_.args) == 2 and all(eigs_name in norm(x_) for x_ in c_.args)]
+        if outers and "right-implicit" in label:
+            # the column block is the implicit one there: its energies are a genuine 1-d array, and outer(E_a, E_b) broadcasts like
+            # E_a.reshape(-1, 1) - E_b whatever the shape of E_a
+            rep.ok(RULE, f"{MOD}::solve_sylvester_diagonal[{label}] energy difference = E_i[row] - E_j[col]", f"`{norm(outers[0])[:70]}` (1-d column energies)", loc(o.node))
+            kinds.add(label)
+            continue
+        if outers:
+            kinds.add(label)
+            rep.fail(RULE, f"{MOD}::solve_sylvester_diagonal[{label}] forms the energy differences with `{norm(outers[0])[:70]}`",
+                     "np.subtract.outer(E_a, E_b) has shape E_a.shape + E_b.shape: with the 0-d zero of a vanishing column block (what "
+                     "_extract_diagonal stores for it) the result is one-dimensional and broadcasts along the COLUMNS of Y, so V_ij is divided "
+                     "by E_a[j]; `E_a.reshape(-1, 1) - E_b` is (n_a, 1) in that case", loc(o.node))
+            continue
         a = analyse_value(o.value, roles)
         if not a["diffs"]:
             raise AnalysisError(RULE, f"solver path [{label}] returns `{vt[:80]}`: no energy difference recognised")
@@ -368,6 +383,14 @@ def rule_diagonal_solver(rep: Report, repo: Repo, complex_energies: bool = True)
                 rep.fail(RULE, f"{MOD}::solve_sylvester_diagonal[{label}] reciprocal `{norm(r)[:60]}` unguarded against |E_i - E_j| <= atol",
                          "this branch is reachable with index[0] == index[1] (kept degenerate pairs of a fully-diagonalised or masked "
                          "block): 1/0 gives inf/NaN instead of 0" + (f"; {g}" if isinstance(g, str) else ""), loc(o.node))
+        # the (rows, 1) x (cols,) difference is brought to the shape of Y by BROADCASTING; np.resize repeats the flattened data instead,
+        # which differs as soon as one of the two energy arrays is the 0-d zero of a vanishing block (fixed defect F11)
+        for rz in [c_ for c_ in ast.walk(o.value) if isinstance(c_, ast.Call) and call_name(c_) in ("np.resize", "numpy.resize")
+                   and c_.args and any(n_ is d_[0] for d_ in a["diffs"] for n_ in ast.walk(c_.args[0]))]:
+            rep.fail(RULE, f"{MOD}::solve_sylvester_diagonal[{label}] shapes the energy denominators with np.resize: `{norm(rz)[:80]}`",
+                     "np.resize repeats the flattened array: for a column block with scalar zero energies the (n_a, 1) column of "
+                     "1/(E_a - 0) is tiled row-major, so V_ij is divided by the energy of another state; np.broadcast_to is the intended operation",
+                     loc(o.node))
         form = result_form(o.value, a)
         if form is None:
             raise AnalysisError(RULE, f"solver path [{label}]: the returned expression `{vt[:90]}` is not recognised as an element-wise product")
